@@ -241,6 +241,11 @@ fn pair_decoded_differs(got: &Option<(RVal, RVal)>, want: &Option<(RVal, RVal)>)
     }
 }
 
+/// 32-bit glyph ids whose low 16 bits are `g`
+pub fn alias_ids(g: u16) -> [u32; 2] {
+    [0x1_0000 | g as u32, 0xFFFF_0000 | g as u32]
+}
+
 fn same_pair(got: &Option<(RVal, RVal)>, want: &Option<(RVal, RVal)>) -> bool {
     match (got, want) {
         (Some(g), Some(w)) => g == w,
@@ -870,7 +875,7 @@ fn check_impl(c: &Case, count_only: bool) -> Result<Outcome, (String, String)> {
         for g1 in neighbours(m.firsts.iter().copied()) {
             for g2 in neighbours(m.seconds.iter().copied()) {
                 pairs += 1;
-                let got = lk.eval_pair(g1, g2).map_err(|d| ("walker failed on read-back data".to_string(), d))?;
+                let got = lk.eval_pair(g1 as u32, g2 as u32).map_err(|d| ("walker failed on read-back data".to_string(), d))?;
                 if !same_pair(&got, &m.eval(g1, g2)) {
                     return e("filler lookup: pair value differs", format!("lookup {li} pair ({g1},{g2}): read {got:?}"));
                 }
@@ -887,13 +892,32 @@ fn check_impl(c: &Case, count_only: bool) -> Result<Outcome, (String, String)> {
             for g1 in neighbours(m.firsts.iter().copied()) {
                 for g2 in neighbours(m.seconds.iter().copied()) {
                     pairs += 1;
-                    let got = lk.eval_pair(g1, g2).map_err(|d| ("walker failed on read-back data".to_string(), d))?;
+                    let got = lk.eval_pair(g1 as u32, g2 as u32).map_err(|d| ("walker failed on read-back data".to_string(), d))?;
                     let want = m.eval(g1, g2);
                     if !same_pair(&got, &want) {
                         return e("pair value differs", format!("pair ({g1},{g2}): read back {got:?}, input rules give {want:?}"));
                     }
                     if device_decode_note.is_none() && pair_decoded_differs(&got, &want) {
                         device_decode_note = Some(format!("pair ({g1},{g2}): read back {got:?}, input rules give {want:?}"));
+                    }
+                }
+            }
+            // 32-bit glyph ids whose low 16 bits alias a covered glyph (or a neighbour) had no rule:
+            // every first glyph aliased x a sample of seconds, and every second aliased x a sample of firsts
+            let u1 = neighbours(m.firsts.iter().copied());
+            let u2 = neighbours(m.seconds.iter().copied());
+            let sample = |u: &[u16]| -> Vec<u16> { u.iter().copied().take(6).chain(u.iter().rev().copied().take(6)).collect() };
+            for (aliased, fixed, first_is_aliased) in [(&u1, sample(&u2), true), (&u2, sample(&u1), false)] {
+                for g in aliased.iter() {
+                    for a in alias_ids(*g) {
+                        for f in &fixed {
+                            pairs += 1;
+                            let (q1, q2) = if first_is_aliased { (a, *f as u32) } else { (*f as u32, a) };
+                            let got = lk.eval_pair(q1, q2).map_err(|d| ("walker failed on read-back data".to_string(), d))?;
+                            if !same_pair(&got, &None) {
+                                return e("a 32-bit glyph id that aliases a 16-bit glyph gets an adjustment", format!("pair ({q1:#x},{q2:#x}): read back {got:?}, no rule exists"));
+                            }
+                        }
                     }
                 }
             }
@@ -907,7 +931,7 @@ fn check_impl(c: &Case, count_only: bool) -> Result<Outcome, (String, String)> {
             for mg in &um {
                 for bg in &ub {
                     pairs += 1;
-                    let got = lk.eval_mark_base(*mg, *bg).map_err(|d| ("walker failed on read-back data".to_string(), d))?;
+                    let got = lk.eval_mark_base(*mg as u32, *bg as u32).map_err(|d| ("walker failed on read-back data".to_string(), d))?;
                     let want = match (marks.get(mg), bases.get(bg)) {
                         (Some((class, ma)), Some(row)) => row.get(class).map(|ba| (ma.clone(), ba.clone())),
                         _ => None,
@@ -919,6 +943,21 @@ fn check_impl(c: &Case, count_only: bool) -> Result<Outcome, (String, String)> {
                         let d = RDev::decoded_differs(&g.0.xdev, &w.0.xdev) || RDev::decoded_differs(&g.0.ydev, &w.0.ydev) || RDev::decoded_differs(&g.1.xdev, &w.1.xdev) || RDev::decoded_differs(&g.1.ydev, &w.1.ydev);
                         if d && device_decode_note.is_none() {
                             device_decode_note = Some(format!("(mark {mg}, base {bg}): read back {got:?}, input gives {want:?}"));
+                        }
+                    }
+                }
+            }
+            let sample = |u: &[u16]| -> Vec<u16> { u.iter().copied().take(6).chain(u.iter().rev().copied().take(6)).collect() };
+            for (aliased, fixed, mark_is_aliased) in [(&um, sample(&ub), true), (&ub, sample(&um), false)] {
+                for g in aliased.iter() {
+                    for a in alias_ids(*g) {
+                        for f in &fixed {
+                            pairs += 1;
+                            let (qm, qb) = if mark_is_aliased { (a, *f as u32) } else { (*f as u32, a) };
+                            let got = lk.eval_mark_base(qm, qb).map_err(|d| ("walker failed on read-back data".to_string(), d))?;
+                            if got.is_some() {
+                                return e("a 32-bit glyph id that aliases a 16-bit glyph gets anchors", format!("(mark {qm:#x}, base {qb:#x}): read back {got:?}, no rule exists"));
+                            }
                         }
                     }
                 }
